@@ -482,7 +482,17 @@ RAW_FORMS += [
     ("fail-message-out-of-reduce-in-an-unused-default", 'let msg = reduce(func (acc, s) => acc + s, "", ["a", "b"]);\nlet r = select ("x", fail msg) => {x = 1};\nlet u = r + 1;'),
     ("function-guards-a-selection-with-is", 'let f = func (t) => select (t is "tuple", 0) => {true = t.x};\nlet r = f(1) + 1;'),
 ]
-RAW_FILES = {"std/lists.ucg": "let unrelated = 1;\n", "c07lib/a.ucg": 'let b = import "./b.ucg";\nlet v = b.val + 1;\n', "c07lib/b.ucg": "let val = 41;\n", "b.ucg": 'let val = "forty-one";\n',
+# one library reached twice from one file: under every pair of spellings of its path and through files in its own and in
+# another directory that import it with `./` and with `../`, in both orders (added after a sixth-round seeded change: the
+# checker's import-shape cache keyed by the spelling, and a stack of files being checked that was never popped)
+_TWICE = [("b", './c07lib/b.ucg', "val"), ("bdot", './c07lib/./b.ucg', "val"), ("bup", './c07lib/../c07lib/b.ucg', "val"), ("bsvc", './c07svc/../c07lib/b.ucg', "val"),
+          ("bbare", 'c07lib/b.ucg', "val"), ("via-neighbour", './c07lib/a.ucg', "v"), ("via-neighbour-up", './c07lib/e.ucg', "v"), ("via-other-directory", './c07svc/svc.ucg', "v")]
+RAW_FORMS += [("import-twice:%s-then-%s" % (n1, n2), 'let x = import "%s";\nlet y = import "%s";\nlet r = x.%s + y.%s;' % (p1, p2, f1, f2))
+              for (n1, p1, f1) in _TWICE for (n2, p2, f2) in _TWICE]
+RAW_FORMS += [("import-thrice:%s-%s-%s" % (n1, n2, n3), 'let x = import "%s";\nlet y = import "%s";\nlet z = import "%s";\nlet r = x.%s + y.%s + z.%s;' % (p1, p2, p3, f1, f2, f3))
+              for (n1, p1, f1) in _TWICE[5:] for (n2, p2, f2) in _TWICE[:5:2] for (n3, p3, f3) in _TWICE[5:]]
+RAW_FILES = {"c07lib/e.ucg": 'let b = import "../c07lib/b.ucg";\nlet v = b.val + 1;\n', "c07svc/svc.ucg": 'let shared = import "../c07lib/b.ucg";\nlet v = shared.val + 1;\n',
+             "std/lists.ucg": "let unrelated = 1;\n", "c07lib/a.ucg": 'let b = import "./b.ucg";\nlet v = b.val + 1;\n', "c07lib/b.ucg": "let val = 41;\n", "b.ucg": 'let val = "forty-one";\n',
              "c07lib/c.ucg": 'let d = import "./d.ucg";\nlet v = d.only_here;\n', "c07lib/d.ucg": "let only_here = 1;\n", "d.ucg": "let other = 2;\n",
              "c07data.txt": "41", "c07data.json": '{"v": 41}', "c07num.json": "41", "c07list.json": "[41, 42]", "c07data.yaml": "v: 41\n", "c07data.toml": "v = 41\n"}
 
@@ -496,14 +506,16 @@ def raw_category(name, src, srv):
             os.makedirs(os.path.dirname(fp), exist_ok=True)
             with open(fp, "w") as f:
                 f.write(t)
-    ev = srv.req({"op": "eval", "src": src, "cwd": d})
+    # each form in an environment of its own: what an earlier form left in the import and shape caches of a shared one
+    # hides faults that a `ucg build` of the file alone shows (found while trialling a sixth-round seeded change)
+    ev = srv.req({"op": "eval", "src": src, "cwd": d, "env": "fresh"})
     if "ok" not in ev:
         return "eval-fails(skipped)", None
     path = os.path.join(d, "raw%d_%d.ucg" % (os.getpid(), next(_counter)))
     with open(path, "w") as f:
         f.write(src + "\n")
     try:
-        b = srv.req({"op": "build", "path": path})
+        b = srv.req({"op": "build", "path": path, "env": "fresh"})
     finally:
         os.unlink(path)
     if "ok" in b:
